@@ -50,8 +50,15 @@ def gen_history(rng, tag, shipped):
     decls = decls + extra if rng.random() < 0.5 else decls[: len(decls) // 2] + extra + decls[len(decls) // 2:]
 
     def rand_query():
-        src = sysm.random_factors(rng, max_factors=2, max_exp=2)
-        dst = sysm.alternative(rng, src) or src
+        if rng.random() < 0.45:
+            # a plain path query between two single units of one dimension
+            d = rng.choice([d for d, ns in sysm.by_dim.items() if len(ns) >= 2])
+            x, w = rng.sample(sysm.by_dim[d], 2)
+            e = rng.choice([1, 1, 1, 2, -1])
+            src, dst = [(x, e)], [(w, e)]
+        else:
+            src = sysm.random_factors(rng, max_factors=2, max_exp=2)
+            dst = sysm.alternative(rng, src) or src
         if shipped and rng.random() < 0.3:
             d = sysm.units[src[0][0]][0]
             tgt = {"length": "foot", "time": "minute", "mass": "pound"}.get(d)
@@ -64,7 +71,8 @@ def gen_history(rng, tag, shipped):
 
     finals = [rand_query() for _ in range(rng.randint(6, 14))]
     ops1 = list(defs)
-    marks = []
+    if rng.random() < 0.5:
+        ops1 += finals  # every final query is first asked before anything has been declared
     for d in decls:
         for _ in range(rng.randint(0, 4)):
             q = rng.choice(finals) if rng.random() < 0.7 else rand_query()
@@ -108,6 +116,20 @@ class Num:
         return f"{self.value!r}"
 
 
+def build_only_run(spec1, final_start):
+    ops = []
+    for idx, op in enumerate(spec1["ops"]):
+        if idx < final_start and op[0] in ("convert", "eq", "lt"):
+            terms = [op[2], op[3]] if op[0] == "convert" else [op[2], op[4]]
+            ops.append(["build", terms])
+        else:
+            ops.append(op)
+    log = synth.run_spec({"modules": spec1["modules"], "ops": ops}, timeout=300)
+    if "inconclusive" in log or log.get("fatal"):
+        return None
+    return log["results"]
+
+
 def outcome(r):
     if "raise" in r:
         return ("raise", r["raise"])
@@ -119,7 +141,7 @@ def outcome(r):
 
 def run(ctx):
     rng = ctx.rng
-    n = ctx.scale(48, 2000)
+    n = ctx.scale(96, 3000)
     cases = []
     for i in range(n):
         cases.append(gen_history(rng, tag=f"c08s{ctx.seed}i{i}", shipped=(i % 3 == 2)))
@@ -141,7 +163,7 @@ def run(ctx):
             continue
         r1, r2 = l1["results"], l2["results"]
         changed_by_later_declaration = 0
-        memo_hits_after_declaration = 0
+        third = None
         # queries before declarations: index of earlier askings of each final query
         earlier = {}
         last_decl_index = -1
@@ -163,10 +185,17 @@ def run(ctx):
                     "earlier_answers": [list(map(str, o)) for _, o in asked_before][:4], "ops_interleaved": spec1["ops"] if len(spec1["ops"]) < 120 else "(long)"}
             if f1 != f2:
                 kind = "stale-failure" if f1[0] == "raise" and f2[0] == "ok" else "stale-value" if f1[0] == "ok" and f2[0] == "ok" else "stale-success"
-                if f1b == f1:
-                    # emptying the memo tables does not help: the difference sits in the intern tables
-                    # (factor order of compound units built by earlier queries), not in a memo
-                    kind = "interning-order:" + ("failure-vs-value" if f1[0] != f2[0] else "value")
+                # Is it the *asking* that changed the answer, or only the order in which the earlier
+                # expressions interned their compound units?  P3 = a third fresh process that builds the
+                # same unit expressions in the same order but asks nothing before the final queries.
+                if third is None:
+                    third = build_only_run(spec1, final_start)
+                    ctx.count("third_process_runs")
+                if third is not None:
+                    f3 = outcome(third[final_start + k])
+                    if f3 == f1:
+                        kind = "interning-order:" + ("failure-vs-value" if f1[0] != f2[0] else "value")
+                    case["build_only_process"] = third[final_start + k]
                 ctx.violation(f"C08:history-dependent:{kind}",
                               f"after the same declarations {model.show(q[2])} -> ... answers {f1} in the process that had asked before, {f2} in a fresh process", case)
             elif f1 != f1b:
